@@ -292,7 +292,7 @@ Proof.
     cbn [fst snd] in *. inversion H; subst. eexists _, _. splits; trivial; try exact Logic.I.
   - (* Replace(String, String) *)
     destruct Ao as [Arm Awm].
-    pose proof (replace_s_spec s (arg_src rm) (arg_src wm) max from I (arg_src_ok s wm I Awm)) as R. cbn zeta in R.
+    pose proof (replace_s_spec s (arg_src rm) (arg_src wm) max from I F (arg_src_ok s wm I Awm)) as R. cbn zeta in R.
     rewrite !osrc_bytes, (osrc_len s wm I) in R. rewrite (lenN_abs s I) in Nd. specialize (R Nd).
     destruct R as (I' & A' & K').
     destruct (StrModel.replace_s1 M TH PG OV jk true s (arg_src rm) (arg_src wm) max from) as [x k].
@@ -380,20 +380,21 @@ Proof.
   - (* WithReplacements(String, String) *)
     destruct Ao as [Arm Awm]. destruct (copy_spec s Sb) as (Ic & Ac).
     assert (Lc : slen (StrModel.ctor_copy M TH PG OV jk true (src_of s)) = slen s) by (rewrite <- (lenN_abs _ Ic), Ac; exact Ls).
-    pose proof (replace_s_spec (StrModel.ctor_copy M TH PG OV jk true (src_of s)) (Some (osrc s (arg_src rm))) (Some (osrc s (arg_src wm))) max from Ic) as R.
+    assert (Fc : nulfree (abs (StrModel.ctor_copy M TH PG OV jk true (src_of s)))) by now rewrite Ac.
+    pose proof (replace_s_spec (StrModel.ctor_copy M TH PG OV jk true (src_of s)) (Some (osrc s (arg_src rm))) (Some (osrc s (arg_src wm))) max from Ic Fc) as R.
     cbn zeta in R. cbn [StrModel.osrc] in R. rewrite !osrc_bytes, Ac in R.
     destruct R as (I' & A' & _).
     + split; [apply (osrc_src_ok s wm I)|]. rewrite (osrc_len s wm I). now apply lit_len.
     + rewrite (osrc_len s wm I), Lc. lia.
     + eexists; splits; [reflexivity|f_equal; exact A'|exact I'].
   - (* Arg(String) *)
-    rewrite osrc_bytes. destruct (arg_spec s (lit_of (abs s) a) Sb) as (I' & A').
+    rewrite osrc_bytes. destruct (arg_spec s (lit_of (abs s) a) Sb F) as (I' & A').
     + now apply lit_nulfree.
     + now apply lit_len.
     + lia.
     + eexists; splits; [reflexivity|f_equal; exact A'|exact I'].
   - (* Arg(int) *)
-    destruct (arg_spec s (dec_of_Z z) Sb (nulfree_dec_of_Z z) Ao) as (I' & A'); [lia|].
+    destruct (arg_spec s (dec_of_Z z) Sb F (nulfree_dec_of_Z z) Ao) as (I' & A'); [lia|].
     eexists; splits; [reflexivity|f_equal; exact A'|exact I'].
   - (* WithSuffix *)
     rewrite osrc_bytes. destruct (ends_with (abs s) (lit_of (abs s) a)).
